@@ -539,6 +539,25 @@ func (e *specEnv) callExpr(c *ast.CallExpr) Val {
 					e.fail(c, "no integer result recorded for a call of %s before this point", name)
 				}
 				return scalar(SignExt(v.T, 64), types.Typ[types.Int64])
+			case "lastNil":
+				// lastNil("callee"): the pointer returned by the most recent call of that callee in this execution was nil
+				bl, ok := c.Args[0].(*ast.BasicLit)
+				if !ok {
+					e.fail(c, "lastNil needs a string literal")
+				}
+				name := strings.Trim(bl.Value, "\"`")
+				if e.callee {
+					return scalar(Fresh("lastNil", SBool), types.Typ[types.Bool])
+				}
+				v, have := e.x.lastRes[name]
+				if !have {
+					// no call of that callee in this execution: nothing was returned, so nothing nil was returned
+					return scalar(False, types.Typ[types.Bool])
+				}
+				if v.K != VPtr || v.Ref == nil {
+					e.fail(c, "the result recorded for %s is not a pointer", name)
+				}
+				return scalar(Eq(v.Ref, BVU(0, 64)), types.Typ[types.Bool])
 			case "lastBool":
 				// lastBool("callee"): the boolean result of the most recent call of that callee in this execution
 				bl, ok := c.Args[0].(*ast.BasicLit)
